@@ -21,6 +21,10 @@ func restoreIndex(rootGoitPath, path string, index *store.Index, tree *object.Tr
 
 	// get node
 	node, isNodeFound := object.GetNode(tree.Children, path)
+	// only a file of the HEAD tree can be staged: a directory of that name is not an entry
+	if isNodeFound && len(node.Children) > 0 {
+		isNodeFound = false
+	}
 
 	// if the path is registered in the Index
 	if isEntryFound {
